@@ -5,6 +5,7 @@ use crate::util::*;
 /// Token-level texts: whatever the parser accepts must print to something it accepts again as the same statements — also for spellings the
 /// program generators avoid (labels that look like mnemonics, registers or literals; colons; several labels; odd operand kinds).
 const TOKENS: [&str; 20] = ["OUT", "out:", "LD", "R0", ",", "LOOP", "LOOP:", ".fill", "x10", "\n", "ADD", "#1", "IN:", "Ret", "BRnzp", "R8", "xyz", ".stringz", "\"s\"", "HALT"];
+const LIT_PIECES: [&str; 10] = ["\\0", "0", "7", "4", "8", "\\n", "\\\\", "\\\"", "a", "x"];
 fn token_text(mut i: u64, len: usize) -> String { let mut v = vec![]; for _ in 0..len { v.push(TOKENS[(i % 20) as usize]); i /= 20; } v.join(" ") }
 fn check_text(text: &str) -> Option<(String, String)> {
     let ast = match catch(|| lc3_ensemble::parse::parse_ast(text)) { Ok(Ok(a)) => a, _ => return None };
@@ -33,6 +34,17 @@ pub fn run(ctx: &Ctx) -> Report {
             let t = token_text(i, len);
             acc.evals += 1; acc.count("token_texts", 1);
             if catch(|| lc3_ensemble::parse::parse_ast(&t)).map(|r| r.is_ok()).unwrap_or(false) { acc.count("token_texts_accepted", 1); acc.nontrivial += 1; }
+            if let Some((sig, d)) = check_text(&t) { acc.violation(sig, format!("tok:{}", hex(t.as_bytes())), d); }
+        });
+        rep.absorb(r);
+    }
+    // string literals as texts: every sequence of <= 5 (thorough 6) pieces over escapes and the characters that could continue one (digits after
+    // \0, letters after a backslash, quotes): what the printer writes for the parsed string must read back as the same string
+    for len in 0..=ctx.pick(5usize, 6usize) {
+        let r = sweep(ctx, 10u64.pow(len as u32), 1024, |i, acc| {
+            let mut k = i; let mut lit = String::new(); for _ in 0..len { lit.push_str(LIT_PIECES[(k % 10) as usize]); k /= 10; }
+            let t = format!("S .stringz \"{lit}\"");
+            acc.evals += 1; acc.count("string_literal_texts", 1); acc.nontrivial += 1;
             if let Some((sig, d)) = check_text(&t) { acc.violation(sig, format!("tok:{}", hex(t.as_bytes())), d); }
         });
         rep.absorb(r);
